@@ -167,3 +167,65 @@ Example C01_btc_dest_wraps_outside_wf :
   wf SSub DBtcK d = false /\
   exists p, relay SSub DBtcK d = Ok p /\ p_data p = DBtc 3 (repeat x02 20).
 Proof. vm_compute. split; [reflexivity | eexists; split; reflexivity]. Qed.
+
+(* ---- histories: many deposits, retries and batches over the SAME long-lived objects ---------------------------------
+   [seq_relay pool steps] = the model of a history: step (i, fault) handles pool deposit i.  The model keeps no
+   state between steps.  [seq_ok pool occs] = the judge of a history: EVERY reading of the proposal prepared
+   for a step (right after it was built, when its batch is written, at the end of the history) satisfies the
+   per-deposit specification [spec_ok]; where the handler lookup was made to fail, nothing is owed. *)
+
+(* the answer for a deposit does not depend on its position in the history nor on the other steps *)
+Theorem C01_seq_pointwise : forall pool pre s post,
+  nth_error (seq_relay pool (pre ++ s :: post)) (length pre) = Some (step_relay pool s).
+Proof. exact seq_relay_pointwise. Qed.
+Print Assumptions C01_seq_pointwise.
+
+(* ... nor on the history, the pool or the index it is stored under: it is the per-deposit relay *)
+Theorem C01_seq_position_independent : forall pool pool' pre pre' post post' i j sk dk d,
+  nth_error pool i = Some (sk, dk, d) -> nth_error pool' j = Some (sk, dk, d) ->
+  nth_error (seq_relay pool (pre ++ (i, false) :: post)) (length pre) = Some (relay sk dk d) /\
+  nth_error (seq_relay pool' (pre' ++ (j, false) :: post')) (length pre') = Some (relay sk dk d).
+Proof. exact seq_position_independent. Qed.
+Print Assumptions C01_seq_position_independent.
+
+(* the pointwise judge accepts the pointwise model, for every history, every fault pattern and every number
+   of readings per step *)
+Theorem C01_seq_ok_model : forall pool steps, steps_wf pool steps = true ->
+  seq_ok pool (map (model_occ pool) steps) = true.
+Proof. exact seq_ok_model. Qed.
+Print Assumptions C01_seq_ok_model.
+
+(* the run evaluates the judge per pool deposit (wf and the reference computed once): the same predicate *)
+Theorem C01_seq_judge_pointwise : forall pool occs, seq_ok_fast pool occs = seq_ok pool occs.
+Proof. exact seq_ok_fast_eq. Qed.
+Print Assumptions C01_seq_judge_pointwise.
+
+(* what the judge accepts: every reading for a well-formed deposit is the reference proposal (or nothing at a
+   scripted fault) ... *)
+Theorem C01_seq_ok_sound : forall pool occs o sk dk d r,
+  seq_ok pool occs = true -> In o occs -> nth_error pool (o_dep o) = Some (sk, dk, d) -> wf sk dk d = true ->
+  In r (o_reads o) -> r = Ok (spec_proposal sk dk d) \/ (o_fail o = true /\ r = Err).
+Proof. exact seq_ok_sound. Qed.
+Print Assumptions C01_seq_ok_sound.
+
+(* ... so a deposit handled twice yields equal proposals and a proposal read twice has not changed *)
+Theorem C01_seq_repeat_equal : forall pool occs o1 o2 sk dk d r1 r2,
+  seq_ok pool occs = true -> In o1 occs -> In o2 occs ->
+  nth_error pool (o_dep o1) = Some (sk, dk, d) -> nth_error pool (o_dep o2) = Some (sk, dk, d) ->
+  wf sk dk d = true -> In r1 (o_reads o1) -> In r2 (o_reads o2) -> r1 <> Err -> r2 <> Err -> r1 = r2.
+Proof. exact seq_repeat_equal. Qed.
+Print Assumptions C01_seq_repeat_equal.
+
+(* non-vacuity: a history over two well-formed deposits with a repeated deposit and a scripted fault; and the
+   judge does reject a retried proposal whose fee limit gained the allowance twice *)
+Definition ex_pool : list item := [(SErc20, DEvm, ex_erc20); (SErc721, DEvm, ex_erc721)].
+Definition ex_steps : list (step * nat) := [((0, false), 2); ((1, true), 1); ((1, false), 3); ((0, false), 1)]%nat.
+Example C01_seq_nonvacuous :
+  steps_wf ex_pool ex_steps = true /\
+  seq_relay ex_pool (map fst ex_steps) =
+    [relay SErc20 DEvm ex_erc20; Err; relay SErc721 DEvm ex_erc721; relay SErc20 DEvm ex_erc20] /\
+  seq_ok ex_pool
+    [mkOcc 0 false [relay SErc20 DEvm ex_erc20];
+     mkOcc 0 false [Ok (mkProp 1 2 77 ex_rid (Some 200007%N)
+                       (DBytes (u256 9 ++ u256 20 ++ repeat x02 20 ++ u256 200007 ++ [x0a; x0b; x0c])))]] = false.
+Proof. vm_compute. repeat split. Qed.
